@@ -94,6 +94,22 @@ def gen(rng, tier):
         yield line(h, level, ver, pdu.err_pdu(0x03, 0x102) if ver == 2 else tlv(0x200, pdu.err_pdu(0x203, 0x102)), "error-pdu")
         yield line(h, level, ver, R()[:-2], "malformed")
         yield line(h, level, ver, tlv(0x221 if ver == 2 else 0x200, b""), "malformed")
+        # statuses that only differ from zero above bit 31
+        yield line(h, level, ver, R(status=rng.choice([1 << 32, 1 << 40, 1 << 63, (1 << 32) + 0x100000000])), "status-not-zero")
+        # the asynchronous service (PDU v2, request id 1): the same server behaviours
+        if i % 2 == 0:
+            A = lambda s=good, **kw: reply(2, kw.pop("rid", 1), kw.pop("status", 0), s, **kw)   # noqa: E731
+            aline = lambda rep, label: "as %s %d %s %s %s" % (hx(h), level, hx(KEY), hx(rep), label)   # noqa: E731
+            yield aline(A(), "ok")
+            yield aline(A(s=aggregate(rng, bytes(other), level)), "chains-for-another-hash")
+            yield aline(A(rid=rng.choice([0, 2, 5])), "foreign-request-id")
+            yield aline(A(status=rng.choice([0x101, 0x300, 1 << 32])), "status-not-zero")
+            yield aline(A(with_status=False), "status-absent")
+            bad = good.clone(); bad.chains[-1].time += 1; yield aline(A(s=bad), "inconsistent-chains")
+            r0 = bytearray(A()); r0[-1] ^= 1; yield aline(bytes(r0), "mac-does-not-verify")
+            yield aline(A(key=b"someone else"), "mac-does-not-verify")
+            if level != 0:
+                yield aline(A(s=aggregate(rng, h, 0)), "chains-computed-for-another-level")
         # the request
         login = rng.choice([b"anon", b"u", b"user-with-a-long-name-%d" % rng.randrange(1000), bytes(range(0x41, 0x41 + 40))])
         yield "q %s %d %d %s %s request" % (hx(h), level, ver, hx(login), hx(KEY))
@@ -122,7 +138,7 @@ CONFIG.props_module = "KsiVerif.Props.C07"
 CONFIG.required_theorems = ["convAggr_ne_zero", "addLevel_spec", "sign_ok_requires", "signed_for_the_requested_hash",
                              "unauthenticated_reply_refused", "untrusted_algorithm_refused"]
 CONFIG.translators = [tables.gen_templates, tables.gen_hashalgs, tables.gen_policies]
-CONFIG.engines = [Engine("c07", ["exec_c07.c"], "drv_c07", gen, trivial=trivial)]
+CONFIG.engines = [Engine("c07", ["exec_c07.c"], "drv_c07", gen, trivial=trivial, wraps=["time"])]
 CONFIG.rule = ("op lines from one PRNG (VERIF_SEED). Document hashes SHA-256/384/512 (and SHA-1 for the refusal), levels {0, 1, 2, 7, 100, 200, 250; 254..257, "
                "1000}, PDU v1 and v2. Honest replies come from a reference aggregator written with hashlib: 1-4 chains of random shape above the "
                "requested (hash, level) with imprint / legacy-id / metadata siblings and level corrections, levels counted from the requested level, "
@@ -131,7 +147,9 @@ CONFIG.rule = ("op lines from one PRNG (VERIF_SEED). Document hashes SHA-256/384
                "bit, another algorithm), chains computed for another level, internally inconsistent chains (sibling, time, index, calendar input, "
                "authentication record time), MAC / payload damaged, other key, other PDU version, error PDU, truncated, empty payload; trees taller than "
                "255. Requests (KSI_createSignRequest + KSI_sendSignRequest): the octets handed to the transport are parsed and must carry the caller's "
-               "hash, level (absent iff 0) and login id, request id 1; untrusted algorithm and levels above 255 must be refused with nothing sent. Oracle on "
+               "hash, level (absent iff 0) and login id, request id 1; untrusted algorithm and levels above 255 must be refused with nothing sent. The "
+               "asynchronous signing service on a scripted socket gets the same honest and deviating replies (statuses with only high bits set included). "
+               "Oracle on "
                "the returned signature itself: parses, input hash = requested hash, first level correction >= requested level, internally consistent "
                "for that hash; never a signature together with an error.")
 CONFIG.trusted_base = [
@@ -141,10 +159,10 @@ CONFIG.trusted_base = [
     "(byte-exactness of what is kept is C11)",
     "translator/tables.py, harness/exec_c07.c, lean/Drv/C07.lean, lib/ksiverif/sig.py, lib/ksiverif/pdu.py"]
 CONFIG.assumptions = [
-    "asynchronous signing: the reply is matched and status-checked by the asynchronous service (C13) and the signature is built by the same "
-    "KSI_SignatureBuilder_openFromAggregationResp / close / verify sequence (KSI_AsyncHandle_getSignature); block signing = "
-    "KSI_Signature_signAggregated of the tree root at the tree's height followed by prepending each leaf's chain (C16 proves the chains, C11's "
-    "histories drive the prepend operation) — neither is driven again here",
+    "asynchronous signing is driven (op `as`: scripted socket, KSI_AsyncHandle_getSignature) and judged by the same oracle; whether a signature "
+    "comes out is compared with the blocking model (the service's own error reporting is C13's); block signing = KSI_Signature_signAggregated of "
+    "the tree root at the tree's height followed by prepending each leaf's chain (C16 proves the chains, C11's histories drive the prepend "
+    "operation) — not driven again here",
     "HTTP and TCP transports hand the reply octets to the same KSI_RequestHandle_getAggregationResponse (C14 / C20 cover framing and URIs)",
     "with two chains of equal index length the SDK's level update picks the first 0x801 element of that length; generated replies have distinct lengths"]
 CONFIG.design_ref = "DESIGN.md section 4 and 8, C07"
